@@ -571,6 +571,9 @@ class RefCodec:
             if v == b"\0" * 7 + b"\x80" and not r.chance(1, 6):
                 v = struct.pack("<Q", (r.next() & 0x7fffffffffffffff) | 0x3f00000000000000)
             return v
+        if getattr(self, "force_long", 0):
+            n, self.force_long = self.force_long, 0
+            return bytes([97 + r.below(26)]) * n
         if r.chance(1, 150):
             return bytes([97 + r.below(26)]) * r.pick([65789, 65790, 65791, 70000])  # around the 2-byte / 8-byte TL2 size boundary
         return r.pick(HOSTILE_STR) if r.chance(3, 4) else bytes(r.below(256) for _ in range(r.below(40)))
@@ -1054,6 +1057,37 @@ def nat_is_used(fields, name):
         if in_type(f.typ):
             return True
     return False
+
+
+def fixed_shapes():
+    """shapes random schemas reach rarely: presence bits in the second mask block, objects that carry only flags (local and external masks),
+    long strings next to them"""
+    s = Schema()
+    tag = [0x0f1e0000]
+
+    def add(base, fields, params=()):
+        d = Decl("struct", "vz", base, list(params))
+        tag[0] += 1
+        d.constructors.append(Constructor(d.lname, tag[0], True, fields))
+        s.decls.append(d)
+        return d
+
+    def nat(name, role="mask"):
+        f = Field(name, T("nat"))
+        f.role = role
+        return f
+    i32 = lambda: T("prim", name="int", spelling="int")
+    st = lambda: T("prim", name="string", spelling="string")
+    tr = lambda: T("true", boxed=False)
+    m = lambda fld, bit, kind="field": (NatExpr(kind, fld), bit)
+    add("wide", [nat("fm")] + [Field(n, i32()) for n in "abcdef"] + [Field("h", tr(), m("fm", 0)), Field("i", tr(), m("fm", 1)), Field("j", i32(), m("fm", 2)), Field("k", tr(), m("fm", 31))])
+    add("wider", [nat("fm")] + [Field("f%d" % i, st(), m("fm", i)) for i in range(14)] + [Field("t14", tr(), m("fm", 14)), Field("t15", tr(), m("fm", 15)), Field("t16", tr(), m("fm", 16))])
+    ext = add("extFlags", [Field("a", i32(), m("m", 0, "param")), Field("b", st(), m("m", 1, "param")), Field("c", tr(), m("m", 2, "param")), Field("d", tr(), m("m", 3, "param"))], [("m", "mask")])
+    add("useExt", [nat("n"), Field("e", T("ref", decl=ext, bare=True, pct=False, args=[NatExpr("field", "n")])), Field("tail", i32())])
+    add("useExtVec", [nat("n"), Field("es", T("vector", elem=T("ref", decl=ext, bare=True, pct=False, args=[NatExpr("field", "n")]), form="bare"))])
+    add("flagsOnly", [nat("fm"), Field("p", tr(), m("fm", 0)), Field("q", tr(), m("fm", 5))])
+    add("bigstr", [Field("s", st()), Field("t", T("vector", elem=st(), form="bare")), Field("u", T("dict", key="str", elem=i32(), boxed=False))])
+    return s
 
 
 def generate(seed, label="schema", **kw):
